@@ -23,6 +23,7 @@ BBDEFS = [
     {"name": "one", "inputs": ["p"], "outputs": ["o"]},
     {"name": "two", "inputs": ["a", "b"], "outputs": ["y", "z"]},
     {"name": "dot", "inputs": ["p.d"], "outputs": ["o"]},  # pin name containing the separator
+    {"name": "bidi", "inputs": ["a", "dq"], "outputs": ["dq", "y"]},  # one pin name in both lists: the instance cannot be built
 ]
 
 
@@ -32,7 +33,7 @@ def gen(rng, ctx):
     if rng.random() < 0.5:
         start = G.rand_circuit(rng, rng.randint(1, 3), rng.randint(1, 5), max_fanin=3, p_const=0.2)
         if rng.random() < 0.6:
-            start = G.add_blackboxes(rng, start, rng.randint(1, 2), bbdefs=BBDEFS, p_unconnected=0.3)
+            start = G.add_blackboxes(rng, start, rng.randint(1, 2), bbdefs=BBDEFS[:4], p_unconnected=0.3)
     children = []
     for i in range(2):
         ch = G.rand_circuit(rng, rng.randint(1, 2), rng.randint(1, 3), max_fanin=2, name=f"ch{i}", in_prefix=rng.choice(["p", "a", "d"]), gate_prefix=rng.choice(["o", "y", "q"]), n_outputs=1, p_input_output=0.0, p_const=0.0)
@@ -92,7 +93,7 @@ def gen(rng, ctx):
         k = rng.choice(["add", "add", "add", "add_uid", "connect", "connect", "connect", "disconnect", "remove", "set_output", "add_blackbox", "add_subcircuit", "fill_blackbox", "targeted"])
         if k == "targeted":
             # calls aimed at one wiring rule, built from the (approximate) types of the live nodes
-            t = rng.choice(["bbout_to_bufs", "second_driver", "into_source", "from_bbin", "bbout_to_gate", "fresh_bufs_then_bbout", "bb_conn_list", "add_bbout_fanout", "two_pins_one_buf", "pin_replaced_then_fill"])
+            t = rng.choice(["bbout_to_bufs", "second_driver", "into_source", "from_bbin", "bbout_to_gate", "fresh_bufs_then_bbout", "bb_conn_list", "add_bbout_fanout", "two_pins_one_buf", "pin_replaced_then_fill", "fill_nested_name_taken", "fill_nested_name_taken"])
             bo, bi = of_type("bb_output"), of_type("bb_input")
             bufs = [n for n in live if ltype.get(n) == "buf"]
             if t == "fresh_bufs_then_bbout":
@@ -111,12 +112,27 @@ def gen(rng, ctx):
                 insts.append(name)
                 live += [f"{name}.p", f"{name}.o"]
                 ltype[f"{name}.p"], ltype[f"{name}.o"] = "bb_input", "bb_output"
+            elif t == "fill_nested_name_taken":
+                # the name <inst>_<nested> that the fill needs for a nested instance is already registered (another cell type)
+                nested = [(i, sorted(ch["bbs"])) for i, ch in enumerate(children) if ch["bbs"] and {n for n, t_, o in ch["nodes"] if t_ == "input"} == {"p"} and {n for n, t_, o in ch["nodes"] if o} == {"o"}]
+                if nested:
+                    ci_, nbs = rng.choice(nested)
+                    name = f"T{len(ops)}"
+                    ops.append({"op": "add_blackbox", "bb": BBDEFS[1], "name": name, "connections": {}})
+                    ops.append({"op": "add_blackbox", "bb": rng.choice([BBDEFS[0], BBDEFS[3]]), "name": f"{name}_{nbs[0]}", "connections": {}})
+                    ops.append({"op": "fill_blackbox", "name": name, "child": ci_})
+                    insts += [name, f"{name}_{nbs[0]}"]
             elif t == "pin_replaced_then_fill":
                 # a pin node is removed by the caller, an ordinary gate takes its dotted name, then the instance is filled
                 name = f"T{len(ops)}"
                 ops.append({"op": "add_blackbox", "bb": BBDEFS[1], "name": name, "connections": {}})
-                ops.append({"op": "remove", "ns": f"{name}.{rng.choice(['p', 'o'])}"})
-                ops.append({"op": "add", "n": ops[-1]["ns"], "type": rng.choice(["and", "or", "bb_input", "bb_output", "buf"]), "uid": False, "output": False, "fanin": [pick(), pick()] if rng.random() < 0.7 else pick()})
+                pin_ = rng.choice(["p", "o"])
+                ops.append({"op": "remove", "ns": f"{name}.{pin_}"})
+                if rng.random() < 0.4:
+                    # the pin comes back with the opposite direction
+                    ops.append({"op": "add", "n": f"{name}.{pin_}", "type": "bb_output" if pin_ == "p" else "bb_input", "uid": False, "output": False, **({"fanin": pick()} if pin_ == "o" else {})})
+                else:
+                    ops.append({"op": "add", "n": f"{name}.{pin_}", "type": rng.choice(["and", "or", "bb_input", "bb_output", "buf"]), "uid": False, "output": False, "fanin": [pick(), pick()] if rng.random() < 0.7 else pick()})
                 matching = [i for i, ch in enumerate(children) if {n for n, t_, o in ch["nodes"] if t_ == "input"} == {"p"} and {n for n, t_, o in ch["nodes"] if o} == {"o"}]
                 ops.append({"op": "fill_blackbox", "name": name, "child": rng.choice(matching) if matching else 0})
                 insts.append(name)
@@ -188,7 +204,7 @@ def gen(rng, ctx):
                 ops[-1]["rep"] = rng.choice(["tuple", "set", "frozenset", "dictkeys"])
         elif k == "add_blackbox":
             bb = rng.choice(BBDEFS)
-            name = rng.choice(["u", "v", "w", "I", "1z", "u", "u.p", "u.v", "I_n0", "u_n0", "s_n1", "a_n0"]) if rng.random() < 0.8 else pick()  # <inst>_<nested>: the key a later add_subcircuit needs
+            name = rng.choice(["u", "v", "w", "I", "1z", "u", "u.p", "u.v", "I_n0", "u_n0", "s_n1", "a_n0", "u_n1", "v_n1", "w_n1", "I_n1"]) if rng.random() < 0.8 else pick()  # <inst>_<nested>: the key a later add_subcircuit needs
             conns = {}
             for p in bb["inputs"] + bb["outputs"]:
                 if rng.random() < 0.5:
@@ -380,6 +396,13 @@ def check(case, ctx):
         else:
             n_rej += 1
         what = f"step {step} {label} -> {'returned ' + repr(r) if ok else 'raised ' + repr(r)}"
+        if ok and k in ("add_subcircuit", "fill_blackbox"):
+            # an instance name that is already taken is an illegal name: the nested instances of the child are
+            # registered as <name>_<nested>
+            taken = [f"{op['name']}_{nb}" for nb in case["children"][op["child"]]["bbs"] if f"{op['name']}_{nb}" in b_bbs]
+            if taken:
+                ctx.violation(f"instance_name_clash_accepted_by_{key}", f"{what}: instance name(s) {taken} were already registered, the call must be refused", extra={"step": step, "site": key})
+                return
         probs = invariant(types, edges, bbs, removed_by_caller)
         if probs:
             ctx.violation(f"invariant_after_{key}_{'ok' if ok else 'raise'}", f"{what}: {probs[:3]}", extra={"step": step, "site": key})
